@@ -7,6 +7,8 @@ from .common import TRUSTED, Ctx
 
 def check(rep):
     ctx = Ctx(rep)
+    if rep.tier == "thorough":
+        LR.validate_engine(ctx)
     LR.rule_op_munch(ctx)
     GR.rule_precedence(ctx)
     n = PR.rule_operator_table(ctx)
